@@ -121,6 +121,12 @@ class Exec:
                 except Exception:
                     return
                 sched.count("thief_acquired")
+                if case.get("thief") == "release":
+                    # ... and lets go at once without moving the pointer (a failed validation, a refused
+                    # initialise): the lock object is GONE when the committer reaches its fence
+                    lp.release()
+                    sched.count("thief_released_early")
+                    return
                 # ownership bookkeeping uses the actor name of the writer; nothing else to do while holding
                 sched.gate("thief:holding", pred=lambda: all(a.state == "done" for a in sched.actors
                                                              if a.name in st))
@@ -257,9 +263,10 @@ class C08(Check):
                            "k": k_main, "shard": sh, "nshards": nsh}
         # one committer + a thief that takes the lock over and keeps it + the clock: all <=1-preemption schedules
         for ops in (["append"], ["delsnap"], ["delete"]):
-            for sh in range(4):
-                yield {"mode": "dfs", "ops": ops, "lock": "real", "clock_steps": 1, "hb_steps": 0, "thief": True,
-                       "k": 1 if tier == "quick" else 2, "shard": sh, "nshards": 4}
+            for thief in (True, "release"):
+                for sh in range(4):
+                    yield {"mode": "dfs", "ops": ops, "lock": "real", "clock_steps": 1, "hb_steps": 0, "thief": thief,
+                           "k": 1 if tier == "quick" else 2, "shard": sh, "nshards": 4}
         key = [{"ops": ["append", "append"], "lock": "real", "clock_steps": 1, "hb_steps": 0},
                {"ops": ["append", "append"], "lock": "grant_all", "clock_steps": 0, "hb_steps": 0}]
         for ci, c in enumerate(key):
